@@ -73,4 +73,31 @@ Section Cbt.
   Definition poly_eqb (p q : poly) : bool := forallb (fun j => p j =? q j) (zseq 0 (Z.to_nat n)).
   (* which candidate message the cell is an encryption of: Some j, or None when it is none of them *)
   Definition cell_msg (d : poly) : option Z := find (fun j => poly_eqb d (cand j)) (zseq 0 (Z.to_nat (2 ^ ld))).
+
+  (* every row of column 0, decoded at its gadget precision, is exactly the message [cand msg] *)
+  Definition cbt_rows_ok (msg : Z) : bool :=
+    forallb (fun i => match cb_row msg i with
+                      | Some q => poly_eqb (row_decoded i q) (cand msg)
+                      | None => false
+                      end) (zseq 0 (Z.to_nat dnum)).
 End Cbt.
+
+(* circuit_bootstrap_core on ciphertexts, over abstract operations: blind rotation with the lookup table built for
+   (to_exponent, log_domain), then per row: rotate by -(i * gap), trace (constant mode) or post_process (exponent
+   mode), and finally the GGLWE -> GGSW expansion of the dnum rows.  (The code rotates the accumulator by -gap once per
+   row; the rotations are written here by their total amount.) *)
+Section CbtCt.
+  Variables lwe glwe ggsw : Type.
+  Variable blind_rotate : lwe -> glwe.
+  Variable g_rot : Z -> glwe -> glwe.
+  Variable g_trace : Z -> glwe -> glwe.
+  Variable g_post : glwe -> glwe.
+  Variable g_expand : list glwe -> ggsw.
+  Variables (logn base2k dnum : Z) (expo : bool) (ld lgo : Z).
+
+  Definition cbt_row_ct (acc : glwe) (i : Z) : glwe :=
+    let a := g_rot (- (i * cb_gap logn dnum ld)) acc in
+    if expo then g_post a else g_trace 0 a.
+  Definition cbt_rows_ct (l : lwe) : list glwe := map (cbt_row_ct (blind_rotate l)) (zseq 0 (Z.to_nat dnum)).
+  Definition cbt_ct (l : lwe) : ggsw := g_expand (cbt_rows_ct l).
+End CbtCt.
